@@ -13,28 +13,25 @@ Variable n B : nat.
 Notation mkself := (RefIpCommon.mkself clsname saltv lengthv fmtv salterv (Z.of_nat B) rest).
 Hypothesis salter_spec : forall b, py_call salterv (VList [saltv; VS b]) = Normal (VInt (if H b then 1 else 0)).
 
+Lemma salter_spec' b : py_call salterv (VList [saltv; VS b]) = Normal (VInt (b2z (H b))).
+Proof. apply salter_spec. Qed.
+
 Theorem gen_deanonymize_bits_simulates : forall fuel d b d' r,
   Memo.g_deanon H fuel d b = Memo.Ok (d', r) ->
   gen__BaseIpAnonymizer___deanonymize_bits py_call fuel (mkself d) (VS b) = Normal (VTuple [VS r; mkself d']).
 Proof.
   induction fuel as [|fuel IH]; intros d b d' r E; [discriminate|].
-  cbn [Memo.g_deanon] in E. cbn [gen__BaseIpAnonymizer___deanonymize_bits].
-  rewrite get_cache. cbn [bind]. rewrite get_inv. cbn [bind py_get]. rewrite dict_inv_enc.
-  destruct (Memo.binv d b) as [r0|] eqn:G; cbn [option_map].
-  - injection E as <- <-. reflexivity.
-  - cbn [is_none negb truthy bindS bind py_neg].
-    destruct (rev b) as [|l rh] eqn:Er; [discriminate|].
+  cbn [Memo.g_deanon] in E. cbn [gen__BaseIpAnonymizer___deanonymize_bits]. py_norm.
+  destruct (Memo.binv d b) as [r0|] eqn:G.
+  - injection E as <- <-. py_norm. reflexivity.
+  - destruct (rev b) as [|l rh] eqn:Er; [discriminate|].
     assert (Eb : b = rev rh ++ [l]) by (rewrite <- (rev_involutive b), Er; reflexivity).
     set (h := rev rh) in *. subst b.
     destruct (Memo.g_deanon H fuel d h) as [[d1 oh]|] eqn:E1; [|discriminate].
     destruct (Memo.bput d1 (oh ++ [xorb (H oh) l]) (h ++ [l])) as [d2|] eqn:E2; [|discriminate].
     injection E as <- <-.
-    rewrite slice_VS. cbn [bind]. rewrite getitem_m1. cbn [bind]. rewrite int_encb. cbn [bind unpack2].
-    rewrite (IH _ _ _ _ E1). cbn [bind unpack2].
-    rewrite get_salter. cbn [bind]. rewrite get_salt. cbn [bind]. rewrite salter_spec. fold (b2z (H oh)). cbn [bind].
-    rewrite xor_b2z. cbn [bind]. rewrite str_b2z. cbn [bind]. rewrite add_VS. cbn [bind].
-    rewrite get_cache. cbn [bind]. rewrite get_inv. cbn [bind py_setitem]. rewrite (put_enc _ _ _ _ E2). cbn [bind].
-    try rewrite get_cache. cbn [bind]. rewrite set_inv. cbn [bind]. rewrite set_cache. cbn [bind]. reflexivity.
+    py_norm_with ltac:(first [rewrite salter_spec' | rewrite (IH _ _ _ _ E1) | rewrite (put_enc _ _ _ _ E2)]).
+    reflexivity.
 Qed.
 
 (* py_format / py_int at the edges are taken as given at the point of use (library models, validated by correspondence) *)
@@ -45,20 +42,19 @@ Theorem gen_deanonymize_simulates : forall d x bits d' r y,
   Memo.deanonymize H n B d bits = Memo.Ok (d', r) ->
   gen__BaseIpAnonymizer__deanonymize py_call (S (List.length bits)) (mkself d) (VInt x) = Normal (VTuple [VInt y; mkself d']).
 Proof.
-  intros d x bits d' r y Ln HBn Hfmt Hint E.
-  unfold gen__BaseIpAnonymizer__deanonymize. rewrite get_fmt. cbn [bind]. rewrite Hfmt. cbn [bind].
-  rewrite get_B. cbn [bind py_eq veq]. unfold Memo.deanonymize in E.
+  intros d x bits d' r y Ln HBn Hfmt Hint E. subst n.
+  unfold Memo.deanonymize in E.
   remember (S (List.length bits)) as fu eqn:Efu.
+  unfold gen__BaseIpAnonymizer__deanonymize.
   destruct (Nat.eqb B 0) eqn:EB.
-  - apply Nat.eqb_eq in EB. replace (Z.of_nat B =? 0) with true by (symmetry; apply Z.eqb_eq; lia). cbn [truthy bindS bind].
-    rewrite (gen_deanonymize_bits_simulates _ _ _ _ _ E). cbn [bind unpack2 bindS]. rewrite Hint. cbn [bind call]. reflexivity.
-  - apply Nat.eqb_neq in EB. replace (Z.of_nat B =? 0) with false by (symmetry; apply Z.eqb_neq; lia). cbn [truthy bindS bind].
-    destruct (Memo.g_deanon H fu d (firstn (n - B) bits)) as [[d1 r1]|] eqn:E1; [|discriminate].
+  - apply Nat.eqb_eq in EB. assert (Z0 : (Z.of_nat B =? 0) = true) by (apply Z.eqb_eq; lia).
+    py_norm_with ltac:(first [rewrite Hfmt | rewrite Z0 | rewrite (gen_deanonymize_bits_simulates _ _ _ _ _ E) | rewrite Hint]).
+    reflexivity.
+  - apply Nat.eqb_neq in EB. assert (Z0 : (Z.of_nat B =? 0) = false) by (apply Z.eqb_neq; lia).
+    destruct (Memo.g_deanon H fu d (firstn (List.length bits - B) bits)) as [[d1 r1]|] eqn:E1; [|discriminate].
     injection E as <- <-.
-    repeat rewrite get_B. cbn [bind py_neg].
-    rewrite (pyslice_prefix bits B) by lia. cbn [bind]. rewrite (pyslice_suffix bits B) by lia. rewrite Ln. cbn [bind unpack2].
-    rewrite (gen_deanonymize_bits_simulates _ _ _ _ _ E1). cbn [bind unpack2]. rewrite add_VS_VS. cbn [bind bindS].
-    rewrite Hint. cbn [bind call]. reflexivity.
+    py_norm_with ltac:(first [rewrite Hfmt | rewrite Z0 | rewrite (gen_deanonymize_bits_simulates _ _ _ _ _ E1) | rewrite Hint]).
+    reflexivity.
 Qed.
 End Sim.
 Print Assumptions gen_deanonymize_bits_simulates.
